@@ -307,9 +307,11 @@ impl Coerceable for Expression {
     fn into_datum(self) -> Result<Expression, Error> {
         match self {
             Expression::None => Ok(Expression::None),
+            // a set has no first element: read the utxo with the lowest ref, so that the same set
+            // always yields the same datum
             Expression::UtxoSet(x) => Ok(x
                 .into_iter()
-                .next()
+                .min_by(|a, b| (&a.r#ref.txid, a.r#ref.index).cmp(&(&b.r#ref.txid, b.r#ref.index)))
                 .and_then(|x| x.datum)
                 .unwrap_or(Expression::None)),
             Expression::List(x) => Ok(Expression::List(x)),
